@@ -247,7 +247,7 @@ print(json.dumps(out))
 '''
 
 
-def memory_case(ctx, token, rk, allow, label, expect_ok):
+def memory_case(ctx, token, rk, allow, label, expect_ok, any_error=False):
     ctx.ev()
     with tempfile.TemporaryDirectory(prefix="jmon-c17-") as d:
         p = os.path.join(d, "spec.json")
@@ -273,7 +273,7 @@ def memory_case(ctx, token, rk, allow, label, expect_ok):
         ctx.violation("memory-grows-with-expansion", f"decrypt of {label} peaked at {out['peak']} octets, bound {bound} (token {tlen} octets)", {"label": label, "peak": out["peak"]})
     if expect_ok != out["ok"]:
         ctx.violation("memory-child-verdict", f"{label}: expected ok={expect_ok}, got {out}", {"label": label})
-    elif not out["ok"] and out.get("etype") != "ExceededSizeError":
+    elif not out["ok"] and not any_error and out.get("etype") != "ExceededSizeError":
         ctx.violation(f"beyond-limit-wrong-error:{out.get('etype')}", f"{label} reported as {out.get('etype')}", {"label": label})
 
 
@@ -499,7 +499,7 @@ def run_shard(ctx):
                 ctx.violation(f"bomb-escapes:{o.key}", f"raw stream beginning 78 9c: {o.exc!r}", dsc)
             if mon.proxy.out_total > 2 * LIMIT:
                 ctx.violation("inflater-unbounded", f"the inflater handed back {mon.proxy.out_total} octets for a raw stream beginning 78 9c (limit {LIMIT})", dsc)
-            memory_case(ctx, tk, rk_, [alg_, enc_, "DEF"], "raw-789c-bomb", False)
+            memory_case(ctx, tk, rk_, [alg_, enc_, "DEF"], "raw-789c-bomb", False, any_error=True)   # read as a zlib stream it is simply malformed
             # and within the limit: refused or returned whole, never something else
             small = b"\x78\x9c\x00\x63\xff" + b"A" * 0x9C + zlib.compress(b"tail " * 100)[2:-4]
             b = g.make("compact", "A128GCM", [("dir", gen.new_oct(128), None)], b"", zip_=True, compressed=small)
